@@ -321,8 +321,13 @@ impl Quat {
         if dot > ONE_MINUS_EPS {
             // 0° singularity: from ≈ to
             Self::IDENTITY
-        } else if dot < -ONE_MINUS_EPS {
+        } else if dot < -ONE_MINUS_EPS
+            || (dot < 0.0 && from.cross(to).length_squared() < 64.0 * f32::EPSILON * f32::EPSILON)
+        {
             // 180° singularity: from ≈ -to
+            // (the inputs are unit length only up to rounding, so `dot` can stay a few epsilon above
+            // -1 for exactly opposite vectors; `1.0 + dot` is then pure rounding noise and the cross
+            // product carries no direction, which the general case would normalize to the identity)
             use core::f32::consts::PI; // half a turn = 𝛕/2 = 180°
             Self::from_axis_angle(from.any_orthonormal_vector(), PI)
         } else {
@@ -377,8 +382,13 @@ impl Quat {
         if dot > ONE_MINUS_EPSILON {
             // 0° singularity: from ≈ to
             Self::IDENTITY
-        } else if dot < -ONE_MINUS_EPSILON {
-            // 180° singularity: from ≈ -to
+        } else if dot < -ONE_MINUS_EPSILON
+            || (dot < 0.0 && {
+                let z = from.x * to.y - to.x * from.y;
+                z * z < 64.0 * f32::EPSILON * f32::EPSILON
+            })
+        {
+            // 180° singularity: from ≈ -to (see `from_rotation_arc` for the second condition)
             const COS_FRAC_PI_2: f32 = 0.0;
             const SIN_FRAC_PI_2: f32 = 1.0;
             // rotation around z by PI radians
